@@ -148,6 +148,34 @@ def tight(text, g=1, p=0):
     return _emit(out, trailing) if n else None
 
 
+def lopsided(text, left=True):
+    """asymmetric spacing round every symbol that has blanks on both sides: none on one side, doubled on the other
+    (a & b -> a&  b   or   a  &b)"""
+    toks = vlex.lex(text)
+    if _frozen_file(toks):
+        return None
+    lines, trailing = _lines(toks)
+    n = 0
+    out = []
+    for ln in lines:
+        if any(k == "cmt" and _TAG.search(t) for k, t in ln):
+            out.append(ln)
+            continue
+        ln = list(ln)
+        pos = set(_interior_ws_positions(ln))
+        drop = set()
+        for i, (k, t) in enumerate(ln):
+            if k == "sym" and (i - 1) in pos and (i + 1) in pos and ln[i - 2][0] != "sym" and i + 2 < len(ln) and ln[i + 2][0] != "sym":
+                a, b = (i - 1, i + 1) if left else (i + 1, i - 1)
+                if a in drop or b in drop:
+                    continue
+                drop.add(a)
+                ln[b] = ("ws", ln[b][1] * 2)
+                n += 1
+        out.append([t for i, t in enumerate(ln) if i not in drop])
+    return _emit(out, trailing) if n else None
+
+
 def break_at(text, g=3, p=0):
     toks = vlex.lex(text)
     if _frozen_file(toks):
@@ -236,6 +264,8 @@ def break_comment(text, g=3, p=0):
 
 
 RECIPES = {
+    "lopl": lambda s: lopsided(s, True),
+    "lopr": lambda s: lopsided(s, False),
     "tight": lambda s: tight(s, 1, 0),
     "tight2a": lambda s: tight(s, 2, 0),
     "tight2b": lambda s: tight(s, 2, 1),
